@@ -226,10 +226,10 @@ Print Assumptions C11_no_ring_of_waiting_goroutines.
    (metadata.AddSegMetaToMetadata) before the writer drops its unrotated information (CleanupUnrotatedSegment): at
    no instant is the segment in neither place (rule C11.* of GenOrderCheck.co_rules; Handover.v takes this order
    as the writer's script). ---- *)
-From SigP Require GenOrderCheck GenOrderProofs.
+From SigP Require GenOrderCheck GenOrderC11.
 Theorem C11_code_registers_rotated_before_dropping_unrotated : forall r : GenOrderCheck.rule,
   In r GenOrderCheck.c11_rules -> GenOrderCheck.rule_holds r.
-Proof. exact GenOrderProofs.co_C11_rules_hold. Qed.
+Proof. exact GenOrderC11.co_C11_rules_hold. Qed.
 Print Assumptions C11_code_registers_rotated_before_dropping_unrotated.
 
 (* ---- the shared tables are touched only under their locks, from the source: for the segstore table, the
@@ -239,8 +239,8 @@ Print Assumptions C11_code_registers_rotated_before_dropping_unrotated.
    touches the variable has, on every path, locked the variable's mutex more often than unlocked it at that point —
    except the listed functions that are entered with the lock held or run at initialisation (rules C11.* of
    GenGuardCheck.gb_rules).  A removed Lock()/RLock() around such an access breaks this theorem. ---- *)
-From SigP Require GenGuardCheck GenGuardProofs.
+From SigP Require GenGuardCheck GenGuardC11.
 Theorem C11_code_shared_tables_touched_only_under_their_locks : forall r : GenGuardCheck.grule,
   In r GenGuardCheck.c11_grules -> GenGuardCheck.grule_holds r.
-Proof. exact GenGuardProofs.gb_C11_rules_hold. Qed.
+Proof. exact GenGuardC11.gb_C11_rules_hold. Qed.
 Print Assumptions C11_code_shared_tables_touched_only_under_their_locks.
